@@ -10,7 +10,7 @@ TITLE = "The uniform superconducting state is exactly stationary"
 LEVEL = "exploration"
 TECHNIQUE = "undriven whole simulations on generated meshes (device meshes, perturbed grids, random Delaunay, annuli); invariant over every recorded frame with a tolerance far below any O(dt) drift"
 RULE = (
-    "case = mesh from {generated device (holes, unpinned terminals, smoothing), perturbed grid, Delaunay of generated points, annulus} x gamma/u "
+    "case = mesh from {generated device (holes, terminals free or held at psi = 1, smoothing), perturbed grid, Delaunay of generated points, annulus} x gamma/u "
     "x adaptive on/off x screening on/off, 30..200 steps with dt below the explicit stability scale; non-trivial = irregular mesh "
     "(edge-length spread > 2) with >= 50 sites; distinct by spec hash"
 )
@@ -40,11 +40,14 @@ def _case(draw, tier):
     else:
         lay = draw(gen.layer(scr))
     adaptive = draw(st.booleans())
-    return dict(mesh=ms, layer=lay,
+    # "epsilon = 1 everywhere" stated as a number, as a function of position, or as a function of position and time
+    eps = draw(st.sampled_from(["number", "number", "callable", "timedep"]))
+    return dict(mesh=ms, layer=lay, epsilon=eps,
                 options=dict(dt_c=draw(gen.logu(-3, 0)) * 0.5, dtmax_c=draw(gen.rf(0.1, 0.5)), adaptive=adaptive, adaptive_window=draw(st.integers(1, 10)),
                              include_screening=scr, screening_tolerance=draw(st.sampled_from([1e-3, 1e-4])),
                              nsteps_nominal=draw(st.integers(30, 60 if tier == "quick" else 200)), save_every=draw(st.integers(1, 25)),
-                             terminal_psi=None, field_units=draw(st.sampled_from(gen.FIELD_UNITS)), current_units=draw(st.sampled_from(gen.CURRENT_UNITS))))
+                             # terminals left free, or held at the uniform value itself
+                             terminal_psi=draw(st.sampled_from([None, None, 1.0, 1])), field_units=draw(st.sampled_from(gen.FIELD_UNITS)), current_units=draw(st.sampled_from(gen.CURRENT_UNITS))))
 
 
 def strategy(tier):
@@ -91,7 +94,10 @@ def check_case(spec):
     o["solve_time"] = (n_nom - 0.5) * (dt_max if o["adaptive"] else dt_init)
     with sim.workdir():
         opts = build.make_options(o, dev, output_file="out.h5")
-        solver = build.make_solver(dev, opts)
+        ek = spec.get("epsilon", "number")
+        res.label(f"epsilon given as {ek}", f"terminal_psi={o.get('terminal_psi')!r}")
+        eps = 1.0 if ek == "number" else build.make_epsilon(dict(kind=ek, x0=0.0, y0=0.0, radius=1.0, lo=1.0))
+        solver = build.make_solver(dev, opts, disorder_epsilon=eps)
         try:
             sol = solver.solve()
         except RuntimeError as exc:
